@@ -274,7 +274,22 @@ def fam_augassign_imported_name(case, failure):
                for n in ast.walk(tree))
 
 
+def fam_future_import_shadowed(case, failure):
+    """D43: a `from __future__ import F` and another top-level import binding the name F in the same module."""
+    fut, other = set(), set()
+    try:
+        for m, lvl, nm, asn in R.top_imports(case["text"]):
+            if m == "__future__":
+                fut.add(asn or nm)
+            else:
+                other.add(asn or nm.split(".")[0])
+    except SyntaxError:
+        return False
+    return bool(fut & other)
+
+
 C02.families = {"augassign_imported_name": fam_augassign_imported_name,
+                "future_import_shadowed": fam_future_import_shadowed,
                 "same_bound_name_in_block": fam_same_bound_name_in_block,
                 "dead_rebinding_import": fam_dead_rebinding_import}
 
